@@ -181,7 +181,15 @@ func wsmsgRun(script []string, w *bufio.Writer) {
 			switch f[0] {
 			case "new":
 				max, bufSize = atoi(f[1]), atoi(f[2])
-				wsmsgUTF8 = len(f) > 3 && f[3] == "utf8"
+				wsmsgUTF8, wsmsgBump = false, false
+				for _, fl := range f[3:] {
+					switch fl {
+					case "utf8":
+						wsmsgUTF8 = true
+					case "bump":
+						wsmsgBump = true
+					}
+				}
 				wire, nframes, cuts = nil, 0, nil
 				fmt.Fprintf(w, "< ok\n")
 			case "msg", "tail":
@@ -234,6 +242,10 @@ func wsmsgRun(script []string, w *bufio.Writer) {
 // fragments at any byte position) and binary payloads that are not valid UTF-8.
 var wsmsgUTF8 bool
 
+// wsmsgBump: while an asynchronous read is waiting for the transport, the application raises the maximum message size
+// (SetMaxMessageSize(max + 70000), more than the read buffer has room for): nothing about the messages in transit changes.
+var wsmsgBump bool
+
 func wsmsgRead(w *bufio.Writer, api string, async bool, max, bufSize int, segs [][]byte, pre, bound int) {
 	ws, err := websocket.NewWebsocketStream(wsIoc, nil, websocket.RoleClient)
 	if err != nil {
@@ -263,8 +275,13 @@ func wsmsgRead(w *bufio.Writer, api string, async bool, max, bufSize int, segs [
 	late := segs[pre:]
 	// an asynchronous read left pending: the next segment arrives; with none left the transport reports "no data"
 	// (a script never blocks)
+	bumped := false
 	wait := func(done *bool) {
 		for !*done {
+			if wsmsgBump && !bumped {
+				bumped = true
+				ws.SetMaxMessageSize(max + 70000)
+			}
 			if len(late) > 0 {
 				ms.feed(late[0])
 				late = late[1:]
@@ -566,11 +583,14 @@ func wsmsgGen(r *rng, maxops int, w *bufio.Writer) {
 			g.max = r.intn(largest)
 		}
 	}
+	flags := ""
 	if utf8 {
-		fmt.Fprintf(w, "! new %d %d utf8\n", g.max, buf)
-	} else {
-		fmt.Fprintf(w, "! new %d %d\n", g.max, buf)
+		flags += " utf8"
 	}
+	if r.intn(4) == 0 && largest <= g.max && buf >= largest {
+		flags += " bump" // (only inside the property's hypotheses: raising the maximum must not change what is delivered)
+	}
+	fmt.Fprintf(w, "! new %d %d%s\n", g.max, buf, flags)
 	var wire []byte
 	var starts []int
 	for _, l := range lines {
